@@ -1450,8 +1450,8 @@ def install(it):
     reg("math.isfinite", lambda it_, v: not isinstance(v, (Inf, NaN)))
     reg("math.log", math_log)
     reg("math.exp", math_exp)
-    reg("math.pow", lambda it_, a, b: (_ for _ in ()).throw(Unsupported("math.pow")))
-    reg("math.ceil", lambda it_, a: (_ for _ in ()).throw(Unsupported("math.ceil")))
+    reg("math.pow", math_pow)
+    reg("math.ceil", math_ceil)
     reg("time.time", time_time)
     reg("copy.copy", copy_copy)
     reg("typing.cast", lambda it_, t, v: v)
@@ -1752,9 +1752,67 @@ def np_where(it, cond, *rest):
     return (Arr.new(v),)
 
 
+def math_pow(it, a, b):
+    """math.pow(a, b): ValueError for 0 ** negative and negative ** non-integer (domain obligations); the value is
+    an uninterpreted real function with sign / monotonicity facts only.  OverflowError ('math range error') is
+    outside the real-arithmetic reading (listed as assumption A-FP)."""
+    if isinstance(a, (int, float)) and isinstance(b, (int, float)):
+        import math
+
+        try:
+            return math.pow(a, b)
+        except ValueError:
+            raise PyRaise(ExcVal(ValueError, ("math domain error",)), origin="math.pow")
+    p = it.path
+    x, e = ops._real(a), ops._real(b)
+    ok = z3.And(z3.Or(x != 0, e >= 0), z3.Or(x >= 0, z3.IsInt(e)))
+    p.prove(ok, "math.pow/domain", kind="domain", desc="math.pow: base != 0 for a negative exponent, base >= 0 for a fractional one", props=it.config.get("implicit_props"))
+    p.assume(ok)
+    f = p.ghost.get("__pow__")
+    if f is None:
+        f = z3.Function("powr", z3.RealSort(), z3.RealSort(), z3.RealSort())
+        p.ghost["__pow__"] = f
+    r = f(x, e)
+    p.assume(z3.Implies(x > 0, r > 0))
+    p.assume(z3.Implies(z3.And(x >= 1, e <= 0), r <= 1))
+    p.assume(z3.Implies(z3.And(x >= 1, e >= 0), r >= 1))
+    p.assume(z3.Implies(z3.And(x > 0, x <= 1, e >= 0), r <= 1))
+    p.assume(z3.Implies(z3.And(x == 0, e > 0), r == 0))
+    p.assume(z3.Implies(e == 0, r == 1))
+    return r
+
+
+def math_ceil(it, v):
+    if isinstance(v, (int, float)):
+        import math
+
+        return math.ceil(v)
+    p = it.path
+    c = p.int("ceil")
+    x = ops._real(v)
+    p.assume(z3.And(z3.ToReal(c) >= x, z3.ToReal(c) - 1 < x))
+    return c
+
+
 def math_log(it, v, base=None):
     if base is not None:
-        raise Unsupported("log with base")
+        # math.log(v, base) = ln(v) / ln(base): v > 0, base > 0 (ValueError) and base != 1 (ZeroDivisionError)
+        p = it.path
+        x, b = ops._real(v), ops._real(base)
+        ok = z3.And(x > 0, b > 0, b != 1)
+        p.prove(ok, "math.log/domain", kind="domain", desc="math.log(v, base): v > 0, base > 0, base != 1", props=it.config.get("implicit_props"))
+        p.assume(ok)
+        f = p.ghost.get("__logb__")
+        if f is None:
+            f = z3.Function("logb", z3.RealSort(), z3.RealSort(), z3.RealSort())
+            p.ghost["__logb__"] = f
+        r = f(x, b)
+        # facts for base > 1 only (monotone increasing, log_b(1) = 0, log_b(1/b) = -1)
+        p.assume(z3.Implies(z3.And(b > 1, x < 1), r < 0))
+        p.assume(z3.Implies(z3.And(b > 1, x >= 1), r >= 0))
+        p.assume(z3.Implies(z3.And(b > 1, x * b < 1), r < -1))
+        p.assume(z3.Implies(z3.And(b > 1, x * b >= 1), r >= -1))
+        return r
     if isinstance(v, (int, float)):
         import math
 
